@@ -17,6 +17,7 @@
 """Class for concatenating visibility data sets."""
 
 import itertools
+import threading
 from functools import reduce
 
 import numpy as np
@@ -317,6 +318,9 @@ class ConcatenatedSensorCache(SensorCache):
     """
 
     def __init__(self, caches, keep=None):
+        # Guards the merged property map, which is updated on first access of each sensor
+        # (the underlying caches have locks of their own for everything else)
+        self._lock = threading.RLock()
         self.caches = caches
         # Collect all virtual sensors in caches as well as properties.
         virtual, self.props = {}, {}
@@ -412,7 +416,8 @@ class ConcatenatedSensorCache(SensorCache):
             split_data = [sd for sd in split_data if sd is not None]
             return ConcatenatedSensorGetter(split_data)
 
-        props = self._get_props(name, self.props, **kwargs)
+        with self._lock:
+            props = self._get_props(name, self.props, **kwargs)
 
         if any(sd is None for sd in split_data):
             # This should not typically happen, and it needs a slow path to
